@@ -1,12 +1,41 @@
 (* C15 -- correspondence entry point: one case is a dumped schema plus the
    observations made on it (data trees of the implementation's responses). *)
-From PyGql Require Import Run.Driver Schema.IntrospectModel.
+From PyGql Require Import Run.Driver Schema.IntrospectModel Spec.IntrospectSpec.
 
 Inductive obs15 :=
 | OIntro (fl : iflags) (data : pv)                 (* introspection_query(), includeDeprecated := flag *)
 | OIntroDisabled (data : pv)                       (* the same under disable_introspection *)
 | OType (fl : iflags) (n : str) (data : pv)        (* { __type(name: n) { ...FullType } } *)
-| OProbe (disabled mutation : bool) (root : pv) (sels : list psel) (data : pv).
+| OProbe (disabled mutation : bool) (root : pv) (sels : list psel) (data : pv)
+(* a reported defaultValue text and what the implementation's parse_value
+   makes of it (None: syntax error): ties the Spec's reader [parse_lit] to
+   the real parser on the texts introspection emits *)
+| OParse (text : str) (parsed : option lit).
+
+Fixpoint lit_eqb (a b : lit) : bool :=
+  match a, b with
+  | LNull, LNull => true
+  | LBool x, LBool y => Bool.eqb x y
+  | LInt x, LInt y => Z.eqb x y
+  | LFloat x, LFloat y => str_eqb x y
+  | LStr x, LStr y => str_eqb x y
+  | LEnum x, LEnum y => str_eqb x y
+  | LList x, LList y =>
+      (fix go (x y : list lit) : bool :=
+         match x, y with
+         | [], [] => true
+         | u :: x', v :: y' => lit_eqb u v && go x' y'
+         | _, _ => false
+         end) x y
+  | LObj x, LObj y =>
+      (fix go (x y : list (str * lit)) : bool :=
+         match x, y with
+         | [], [] => true
+         | (k, u) :: x', (k', v) :: y' => str_eqb k k' && lit_eqb u v && go x' y'
+         | _, _ => false
+         end) x y
+  | _, _ => false
+  end.
 
 Definition case_C15 : Type := ischema pv * list obs15.
 
@@ -19,14 +48,25 @@ Definition model_obs (sc : ischema pv) (o : obs15) : option pv :=
   | OIntroDisabled _ => Some (PDict [])
   | OType fl n _ => Some (type_query_model sc fl n)
   | OProbe dis mut root sels _ => probe_model big_fuel dis mut sc root sels
+  | OParse _ _ => None
   end.
 
 Definition obs_data (o : obs15) : pv :=
   match o with
   | OIntro _ d => d | OIntroDisabled d => d | OType _ _ d => d | OProbe _ _ _ _ d => d
+  | OParse _ _ => PNone
   end.
 
-Definition agree_obs (sc : ischema pv) (o : obs15) : bool := opt_pv_eqb (model_obs sc o) (obs_data o).
+Definition agree_obs (sc : ischema pv) (o : obs15) : bool :=
+  match o with
+  | OParse text parsed =>
+      match parse_lit text, parsed with
+      | Some a, Some b => lit_eqb a b
+      | None, None => true
+      | _, _ => false
+      end
+  | _ => opt_pv_eqb (model_obs sc o) (obs_data o)
+  end.
 
 Definition agree_C15 (c : case_C15) : bool := forallb (agree_obs (fst c)) (snd c).
 
